@@ -1,1 +1,315 @@
-fn main() { eprintln!("not built yet"); std::process::exit(2); }
+//! vh-asm-x64: executor for C07 (x86-64 instructions are encoded as requested).
+//!
+//! The Python side (vlib/props/c07.py + vlib/asmspec/x64.py) owns the operand domains and the oracle
+//! (llvm-mc). This binary only *executes* requests against the real `dora_asm::x64::AssemblerX64`:
+//!
+//!   vh-asm-x64 run in=<requests.txt> out=<results.jsonl>
+//!   vh-asm-x64 list                      (prints the method names of the dispatch table)
+//!
+//! Request line:  <id> <method> <avx 0|1> <pre> <operand>...
+//!   r<n>  general purpose register n          x<n>  xmm register n
+//!   i<v>  Immediate(v) (i64, decimal)         u<v>  u8           d<v>  i32
+//!   c<VariantName>  Condition::<VariantName>
+//!   ao:<base>:<disp>  Address::offset         ag:<base>  Address::reg
+//!   ai:<index>:<scale>:<disp>  Address::index
+//!   aa:<base>:<index>:<scale>:<disp>  Address::array      ap:<disp>  Address::rip
+//!   Lf<k>  label bound k nop bytes *after* the instruction (forward reference)
+//!   Lb<k>  label bound k nop bytes *before* the instruction (backward reference);
+//!          odd ids use create_and_bind_label, even ids create_label + bind_label
+//! Layout: <pre> nops, [label, k nops], INSTRUCTION, [k nops, label], 3 nops, finalize(1).
+//! Result line (JSON): {id, st: "ok", hex (instruction bytes after finalize), start, end, lbl, total, clean}
+//!   `clean` = every byte outside [start, end) is still a nop and the buffer has the expected length;
+//!   st "refused" (+loc, msg) = the assembler panicked (assert); st "unknown" = method not in the table.
+use std::io::{BufRead, Write};
+
+use dora_asm::Label;
+use dora_asm::x64::*;
+use vhc::{Args, catch, json};
+
+struct Ops<'a> {
+    toks: Vec<&'a str>,
+    pos: usize,
+    label: Option<Label>,
+}
+
+type R<T> = Result<T, String>;
+
+#[allow(non_snake_case)]
+impl<'a> Ops<'a> {
+    fn next(&mut self, prefix: &str) -> R<&'a str> {
+        let t = self.toks.get(self.pos).ok_or_else(|| format!("missing operand {}", self.pos))?;
+        self.pos += 1;
+        t.strip_prefix(prefix).ok_or_else(|| format!("operand {:?} is not of kind {:?}", t, prefix))
+    }
+    fn num<T: std::str::FromStr>(s: &str) -> R<T> {
+        s.parse::<T>().map_err(|_| format!("bad number {:?}", s))
+    }
+    fn reg(s: &str) -> R<Register> {
+        let n: u8 = Self::num(s)?;
+        if n >= 16 {
+            return Err(format!("bad register {}", n));
+        }
+        Ok(Register::new(n))
+    }
+    fn R(&mut self) -> R<Register> {
+        Self::reg(self.next("r")?)
+    }
+    fn X(&mut self) -> R<XmmRegister> {
+        let n: u8 = Self::num(self.next("x")?)?;
+        if n >= 16 {
+            return Err(format!("bad xmm register {}", n));
+        }
+        Ok(XmmRegister::new(n))
+    }
+    fn I(&mut self) -> R<Immediate> {
+        Ok(Immediate(Self::num::<i64>(self.next("i")?)?))
+    }
+    fn U(&mut self) -> R<u8> {
+        Self::num(self.next("u")?)
+    }
+    fn D(&mut self) -> R<i32> {
+        Self::num(self.next("d")?)
+    }
+    fn C(&mut self) -> R<Condition> {
+        cond_by_name(self.next("c")?)
+    }
+    fn L(&mut self) -> R<Label> {
+        self.next("L")?;
+        self.label.ok_or_else(|| "no label prepared".to_string())
+    }
+    fn scale(s: &str) -> R<ScaleFactor> {
+        Ok(match s {
+            "1" => ScaleFactor::One,
+            "2" => ScaleFactor::Two,
+            "4" => ScaleFactor::Four,
+            "8" => ScaleFactor::Eight,
+            _ => return Err(format!("bad scale {:?}", s)),
+        })
+    }
+    fn A(&mut self) -> R<Address> {
+        let t = self.next("a")?;
+        let p: Vec<&str> = t.split(':').collect();
+        Ok(match (p[0], p.len()) {
+            ("o", 3) => Address::offset(Self::reg(p[1])?, Self::num(p[2])?),
+            ("g", 2) => Address::reg(Self::reg(p[1])?),
+            ("i", 4) => Address::index(Self::reg(p[1])?, Self::scale(p[2])?, Self::num(p[3])?),
+            ("a", 5) => Address::array(Self::reg(p[1])?, Self::reg(p[2])?, Self::scale(p[3])?, Self::num(p[4])?),
+            ("p", 2) => Address::rip(Self::num(p[1])?),
+            _ => return Err(format!("bad address {:?}", t)),
+        })
+    }
+}
+
+macro_rules! conditions {
+    ($($v:ident),* $(,)?) => {
+        fn cond_by_name(s: &str) -> R<Condition> {
+            match s {
+                $( stringify!($v) => Ok(Condition::$v), )*
+                _ => Err(format!("unknown condition {:?}", s)),
+            }
+        }
+        const CONDITIONS: &[&str] = &[$( stringify!($v) ),*];
+    };
+}
+
+conditions!(
+    Overflow, NoOverflow, Below, NeitherAboveNorEqual, NotBelow, AboveOrEqual, Equal, Zero, NotEqual, NotZero,
+    BelowOrEqual, NotAbove, NeitherBelowNorEqual, Above, Sign, NoSign, Parity, ParityEven, NoParity, ParityOdd,
+    Less, NeitherGreaterNorEqual, NotLess, GreaterOrEqual, LessOrEqual, NotGreater, NeitherLessNorEqual, Greater,
+);
+
+/// Some(Ok) = called, Some(Err) = malformed request, None = unknown method.
+macro_rules! methods {
+    ($( $m:ident ( $($k:ident),* ) ),* $(,)?) => {
+        fn dispatch(asm: &mut AssemblerX64, name: &str, p: &mut Ops) -> Option<R<()>> {
+            match name {
+                $( stringify!($m) => Some((|| -> R<()> {
+                    methods!(@call asm, p, $m; $($k),*);
+                    Ok(())
+                })()), )*
+                _ => None,
+            }
+        }
+        const METHODS: &[(&str, &str)] = &[$( (stringify!($m), stringify!($($k)*)) ),*];
+    };
+    (@call $asm:ident, $p:ident, $m:ident; ) => { $asm.$m() };
+    (@call $asm:ident, $p:ident, $m:ident; $a:ident) => {{ let a = $p.$a()?; $asm.$m(a) }};
+    (@call $asm:ident, $p:ident, $m:ident; $a:ident, $b:ident) => {{ let a = $p.$a()?; let b = $p.$b()?; $asm.$m(a, b) }};
+    (@call $asm:ident, $p:ident, $m:ident; $a:ident, $b:ident, $c:ident) => {{
+        let a = $p.$a()?; let b = $p.$b()?; let c = $p.$c()?; $asm.$m(a, b, c) }};
+    (@call $asm:ident, $p:ident, $m:ident; $a:ident, $b:ident, $c:ident, $d:ident) => {{
+        let a = $p.$a()?; let b = $p.$b()?; let c = $p.$c()?; let d = $p.$d()?; $asm.$m(a, b, c, d) }};
+}
+
+methods!(
+    addl_ri(R, I), addl_rr(R, R), addq_ri(R, I), addq_rr(R, R), addss_rr(X, X), addsd_rr(X, X), andl_rr(R, R),
+    andps_ra(X, A), andps_rl(X, L), andq_ri(R, I), andq_rr(R, R), call_r(R), call_rel32(D), cdq(), cmovl(C, R, R),
+    cmovq(C, R, R), cmpb_ai(A, I), cmpb_ar(A, R), cmpb_rr(R, R), cmpl_ai(A, I), cmpl_ar(A, R), cmpl_ri(R, I),
+    cmpl_rr(R, R), cmpq_ai(A, I), cmpq_ar(A, R), cmpq_ri(R, I), cmpq_rr(R, R), cmpxchgl_ar(A, R), cmpxchgq_ar(A, R),
+    cqo(), cvtsd2ss_rr(X, X), cvtsi2sdd_rr(X, R), cvtsi2sdq_rr(X, R), cvtsi2ssd_rr(X, R), cvtsi2ssq_rr(X, R),
+    cvtss2sd_rr(X, X), cvttsd2sid_rr(R, X), cvttsd2siq_rr(R, X), cvttss2sid_rr(R, X), cvttss2siq_rr(R, X),
+    divss_rr(X, X), divsd_rr(X, X), idivl_r(R), idivq_r(R), imull_rr(R, R), imulq_rr(R, R), int3(), jcc(C, L),
+    jcc_near(C, L), jmp(L), jmp_near(L), jmp_r(R), lea(R, A), lock_cmpxchgq_ar(A, R), lock_cmpxchgl_ar(A, R),
+    lock_xaddq_ar(A, R), lock_xaddl_ar(A, R), lzcntl_rr(R, R), lzcntq_rr(R, R), mfence(), movaps_ar(A, X),
+    movb_ai(A, I), movb_ar(A, R), movb_ra(R, A), movd_rx(R, X), movd_xr(X, R), movl_ai(A, I), movl_ar(A, R),
+    movl_ra(R, A), movl_ri(R, I), movl_rr(R, R), movq_ai(A, I), movq_ar(A, R), movq_ra(R, A), movq_ri(R, I),
+    movq_rl(R, L), movq_rr(R, R), movq_rx(R, X), movq_xr(X, R), movsd_ra(X, A), movsd_rl(X, L), movsd_rr(X, X),
+    movsd_ar(A, X), movss_ar(A, X), movss_ra(X, A), movss_rl(X, L), movss_rr(X, X), movsxbl_ra(R, A),
+    movsxbl_rr(R, R), movsxbq_ra(R, A), movsxbq_rr(R, R), movsxlq_rr(R, R), movups_ar(A, X), movzxb_rr(R, R),
+    movzxb_ra(R, A), mulsd_rr(X, X), mulss_rr(X, X), negl(R), negq(R), nop(), notl(R), notq(R), orl_rr(R, R),
+    orq_rr(R, R), pushq_r(R), popcntl_rr(R, R), popcntq_rr(R, R), popq_r(R), pxor_rr(X, X), retq(), roll_r(R),
+    rolq_r(R), roundsd_ri(X, X, U), roundss_ri(X, X, U), rorl_r(R), rorq_r(R), sarl_r(R), sarl_ri(R, I), sarq_r(R),
+    sarq_ri(R, I), setcc_r(C, R), shll_r(R), shll_ri(R, I), shlq_r(R), shlq_ri(R, I), shrl_r(R), shrl_ri(R, I),
+    shrq_r(R), shrq_ri(R, I), sqrtsd_rr(X, X), sqrtss_rr(X, X), subl_rr(R, R), subq_ri(R, I), subq_rr(R, R),
+    subsd_rr(X, X), subss_rr(X, X), testb_ai(A, I), testb_rr(R, R), testl_ai(A, I), testl_ar(A, R), testl_ri(R, I),
+    testl_rr(R, R), testq_ai(A, I), testq_ar(A, R), testq_rr(R, R), tzcntl_rr(R, R), tzcntq_rr(R, R),
+    ucomisd_rr(X, X), ucomiss_rr(X, X), vaddsd_rr(X, X, X), vaddss_rr(X, X, X), vandpd_ra(X, X, A),
+    vandpd_rl(X, X, L), vandps_ra(X, X, A), vandps_rl(X, X, L), vcvtsd2ss_rr(X, X, X), vcvtsi2sdd_rr(X, X, R),
+    vcvtsi2sdq_rr(X, X, R), vcvtsi2ssd_rr(X, X, R), vcvtsi2ssq_rr(X, X, R), vcvtss2sd_rr(X, X, X),
+    vcvttsd2sid_rr(R, X), vcvttsd2siq_rr(R, X), vcvttss2sid_rr(R, X), vcvttss2siq_rr(R, X), vdivsd_rr(X, X, X),
+    vdivss_rr(X, X, X), vmovapd_rr(X, X), vmovaps_rr(X, X), vmovd_rx(R, X), vmovd_xr(X, R), vmovq_rx(R, X),
+    vmovq_xr(X, R), vmovsd_ar(A, X), vmovsd_ra(X, A), vmovsd_rl(X, L), vmovsd_rr(X, X, X), vmovss_ar(A, X),
+    vmovss_ra(X, A), vmovss_rl(X, L), vmovss_rr(X, X, X), vmulsd_rr(X, X, X), vmulss_rr(X, X, X),
+    vroundsd_ri(X, X, X, U), vroundss_ri(X, X, X, U), vsqrtsd_rr(X, X, X), vsqrtss_rr(X, X, X), vsubsd_rr(X, X, X),
+    vsubss_rr(X, X, X), vucomisd_rr(X, X), vucomiss_rr(X, X), vxorpd_ra(X, X, A), vxorpd_rl(X, X, L),
+    vxorps_ra(X, X, A), vxorps_rl(X, X, L), vxorps_rr(X, X, X), xaddl_ar(A, R), xaddq_ar(A, R), xchgb_ar(A, R),
+    xchgl_ar(A, R), xchgq_ar(A, R), xorl_ri(R, I), xorl_rr(R, R), xorpd_ra(X, A), xorpd_rl(X, L), xorps_ra(X, A),
+    xorps_rl(X, L), xorps_rr(X, X), xorq_rr(R, R),
+);
+
+const TAIL_NOPS: usize = 3;
+
+enum Outcome {
+    Ok { code: Vec<u8>, start: usize, end: usize, lbl: Option<u32> },
+    Unknown,
+    Malformed(String),
+}
+
+fn execute(id: u64, method: &str, avx: bool, pre: usize, toks: &[&str]) -> Outcome {
+    let mut asm = AssemblerX64::new(avx);
+    for _ in 0..pre {
+        asm.nop();
+    }
+    // label scenario (at most one label operand per request)
+    let ltok = toks.iter().find(|t| t.starts_with('L')).copied();
+    let mut label = None;
+    let mut fwd_pad = None;
+    if let Some(t) = ltok {
+        let k: usize = match t[2..].parse() {
+            Ok(k) => k,
+            Err(_) => return Outcome::Malformed(format!("bad label operand {:?}", t)),
+        };
+        match &t[1..2] {
+            "b" => {
+                let l = if id % 2 == 1 {
+                    asm.create_and_bind_label()
+                } else {
+                    let l = asm.create_label();
+                    asm.bind_label(l);
+                    l
+                };
+                for _ in 0..k {
+                    asm.nop();
+                }
+                label = Some(l);
+            }
+            "f" => {
+                label = Some(asm.create_label());
+                fwd_pad = Some(k);
+            }
+            _ => return Outcome::Malformed(format!("bad label operand {:?}", t)),
+        }
+    }
+    let start = asm.position();
+    let mut ops = Ops { toks: toks.to_vec(), pos: 0, label };
+    match dispatch(&mut asm, method, &mut ops) {
+        None => return Outcome::Unknown,
+        Some(Err(e)) => return Outcome::Malformed(e),
+        Some(Ok(())) => {}
+    }
+    if ops.pos != toks.len() {
+        return Outcome::Malformed(format!("{} operands given, {} used", toks.len(), ops.pos));
+    }
+    let end = asm.position();
+    if let Some(k) = fwd_pad {
+        for _ in 0..k {
+            asm.nop();
+        }
+        asm.bind_label(label.unwrap());
+    }
+    for _ in 0..TAIL_NOPS {
+        asm.nop();
+    }
+    let lbl = label.and_then(|l| asm.offset(l));
+    let code = asm.finalize(1).code();
+    Outcome::Ok { code, start, end, lbl }
+}
+
+fn hex(b: &[u8]) -> String {
+    let mut s = String::with_capacity(b.len() * 2);
+    for x in b {
+        s.push_str(&format!("{:02x}", x));
+    }
+    s
+}
+
+fn run(args: &Args) {
+    let inp = args.get("in").expect("in=<file>");
+    let outp = args.get("out").expect("out=<file>");
+    let f = std::io::BufReader::new(std::fs::File::open(inp).expect("open request file"));
+    let mut out = std::io::BufWriter::new(std::fs::File::create(outp).expect("create result file"));
+    let mut n = 0u64;
+    for line in f.lines() {
+        let line = line.unwrap();
+        let toks: Vec<&str> = line.split_whitespace().collect();
+        if toks.is_empty() || toks[0].starts_with('#') {
+            continue;
+        }
+        n += 1;
+        let parsed = (|| -> Option<(u64, &str, bool, usize)> {
+            Some((toks.first()?.parse().ok()?, *toks.get(1)?, *toks.get(2)? == "1", toks.get(3)?.parse().ok()?))
+        })();
+        let Some((id, method, avx, pre)) = parsed else {
+            writeln!(out, "{}", json!({"id": -1, "st": "malformed", "msg": line})).unwrap();
+            continue;
+        };
+        let ops = &toks[4..];
+        let v = match catch(|| execute(id, method, avx, pre, ops)) {
+            Err(p) => json!({"id": id, "st": "refused", "loc": p.loc, "msg": p.msg.chars().take(200).collect::<String>()}),
+            Ok(Outcome::Unknown) => json!({"id": id, "st": "unknown"}),
+            Ok(Outcome::Malformed(m)) => json!({"id": id, "st": "malformed", "msg": m}),
+            Ok(Outcome::Ok { code, start, end, lbl }) => {
+                let inside = start <= end && end <= code.len();
+                let clean = inside
+                    && code[..start].iter().all(|b| *b == 0x90)
+                    && code[end..].iter().all(|b| *b == 0x90);
+                let h = if inside { hex(&code[start..end]) } else { hex(&code) };
+                json!({"id": id, "st": "ok", "hex": h, "start": start, "end": end, "lbl": lbl,
+                       "total": code.len(), "clean": clean})
+            }
+        };
+        writeln!(out, "{}", v).unwrap();
+    }
+    writeln!(out, "{}", json!({"st": "done", "n": n})).unwrap();
+    out.flush().unwrap();
+}
+
+fn main() {
+    let args = Args::parse();
+    vhc::install_panic_hook();
+    match args.mode.as_str() {
+        "run" => run(&args),
+        "list" => {
+            for (m, k) in METHODS {
+                println!("{} {}", m, k);
+            }
+            for c in CONDITIONS {
+                println!("@cond {}", c);
+            }
+        }
+        m => {
+            eprintln!("unknown mode {:?}", m);
+            std::process::exit(2);
+        }
+    }
+}
